@@ -1,5 +1,6 @@
 import QmiModel.Lemmas.C18Responder
 import QmiModel.Lemmas.C18Utf8
+import QmiModel.Lemmas.C18Admit
 /-! Helper lemmas for C18: a request built by `create`, and one node's answer as the asker receives it. -/
 namespace QmiModel.Discovery
 
@@ -71,7 +72,7 @@ structure Node where
 /-- names the packet format can carry, values the fields can hold -/
 def Node.Admissible (L : Layout) (n : Node) : Prop :=
   (utf8Encode n.ctx.name).length ≤ L.nameLen ∧ (utf8Encode n.ctx.workgroup).length ≤ L.wgLen ∧
-  (∀ ch ∈ n.ctx.name, ch.toNat ≠ 0) ∧ (∀ ch ∈ n.ctx.workgroup, ch.toNat ≠ 0) ∧
+  (∀ b ∈ utf8Encode n.ctx.name, b ≠ 0) ∧ (∀ b ∈ utf8Encode n.ctx.workgroup, b ≠ 0) ∧
   -((256 ^ L.portSz : Nat) : Int) ≤ 2 * n.ctx.port ∧ 2 * n.ctx.port < ((256 ^ L.portSz : Nat) : Int) ∧
   n.now.length = L.tsSz
 
@@ -80,6 +81,18 @@ def nodeAnswer (L : Layout) (asker : Nat) (req : Bytes) (n : Node) : Option (Nat
   match handleRead L n.ctx { addr := asker, data := req, rid := n.rid, now := n.now } with
   | .sent _ bs => some (n.addr, bs)
   | _ => none
+
+/-- a context that exists and runs: its names passed `QMI_Context.__init__`, its TCP port is an `int32`,
+its clock value has the size of the timestamp field -/
+def Node.Running (L : Layout) (n : Node) : Prop :=
+  admitContext L n.ctx.name n.ctx.workgroup = true ∧
+  -((256 ^ L.portSz : Nat) : Int) ≤ 2 * n.ctx.port ∧ 2 * n.ctx.port < ((256 ^ L.portSz : Nat) : Int) ∧
+  n.now.length = L.tsSz
+
+theorem Node.Running.admissible {L : Layout} (wf : WF L) {n : Node} (h : n.Running L) : n.Admissible L := by
+  obtain ⟨ha, hp1, hp2, hnow⟩ := h
+  obtain ⟨h1, h2, h3, h4⟩ := admit_fits wf ha
+  exact ⟨h1, h2, h3, h4, hp1, hp2, hnow⟩
 
 /-- the datagrams that come back to the asker when `req` reaches every node -/
 def answersOf (L : Layout) (asker : Nat) (req : Bytes) (nodes : List Node) : List (Nat × Bytes) :=
@@ -95,9 +108,7 @@ theorem node_answer {L : Layout} (wf : WF L) (n : Node) (hadm : n.Admissible L) 
       ∃ out p, handleRead L n.ctx { addr := asker, data := req, rid := n.rid, now := n.now } = .sent asker out ∧
         pingAccept L rid (n.addr, out) = some (n.addr, p) ∧
         utf8Decode (cstr (p.fld 7)) = some n.ctx.name ∧ sintOf (p.fld 9) = n.ctx.port := by
-  obtain ⟨hN, hW, hN0, hW0, hp1, hp2, hnow⟩ := hadm
-  have hn0 := utf8Encode_ne_zero _ hN0
-  have hw0 := utf8Encode_ne_zero _ hW0
+  obtain ⟨hN, hW, hn0, hw0, hp1, hp2, hnow⟩ := hadm
   rw [handleRead_request wf n.ctx _ hreq]
   unfold handleInfoRequest
   simp only [Packet.fld]
@@ -235,6 +246,7 @@ instance (L : Layout) (bs : Bytes) : Decidable (IsInfoRequest L bs) := by unfold
 instance (L : Layout) (bs : Bytes) : Decidable (IsKillRequest L bs) := by unfold IsKillRequest; infer_instance
 instance (L : Layout) (bs : Bytes) : Decidable (WellFormedRequest L bs) := by unfold WellFormedRequest; infer_instance
 instance (L : Layout) (n : Node) : Decidable (n.Admissible L) := by unfold Node.Admissible; infer_instance
+instance (L : Layout) (n : Node) : Decidable (n.Running L) := by unfold Node.Running; infer_instance
 
 /-- a context whose workgroup name is one byte longer than the field -/
 def witCtx : Ctx := { name := ['n'], workgroup := List.replicate (genLayout.wgLen + 1) 'w', pid := 1, port := 2 }
